@@ -4,7 +4,9 @@ mod explore;
 mod report;
 mod util;
 
+mod bringup;
 mod c10;
+mod dec;
 
 pub fn verif_dir() -> String {
     std::env::var("VERIF_DIR").unwrap_or_else(|_| "/verif".to_string())
@@ -52,6 +54,7 @@ fn main() {
     // A panic inside the *machinery* (not inside a guarded call into the subject) is a machinery failure.
     let r = std::panic::catch_unwind(|| match id.as_str() {
         "C10" => c10::main(&args),
+        "bringup" => bringup::main(&args),
         _ => {
             eprintln!("unknown check {id}");
             std::process::exit(2);
